@@ -1,4 +1,6 @@
 import Dia.Hostile
+import Dia.StreamAll
+import Dia.NoPanic
 /-! # C07 - Hostile frame lengths on a stream are refused cheaply and safely. Property theorems only. -/
 namespace Dia
 
@@ -55,6 +57,28 @@ theorem C07_within_limit (cfg : Cfg) (dict : Lookup) (evs : List REv) (b0 : UInt
   simp only [hr2]
   have hl : ((flat evs1).take (L - 4)).length = L - 4 := by rw [List.length_take, hf1]; simp; omega
   refine ⟨by simp only [hl]; omega, ?_, ?_, ?_, ?_⟩ <;> (split <;> simp)
+
+/-- **later frames are guarded like the first.** Behind any number of well-framed frames on the same stream - accepted by the
+message decoder or refused by it - an announcement above 1 MiB or below a Diameter header is refused by the very next call,
+which takes exactly its 4 octets; the calls before it each took exactly their own frame. -/
+theorem C07_after_frames (cfg : Cfg) (dict : Lookup) (frames : List Bytes) (evs : List REv) (b0 : UInt8) (L : Nat)
+    (tail : Bytes) (hfr : ∀ f ∈ frames, Framed f) (hL : L < 16777216) (hbad : L > 1048576 ∨ L < 20)
+    (hne : noEmpty evs) (hflat : flat evs = frames.flatten ++ (b0 :: be24 L ++ tail)) :
+    decodeSeqAll cfg dict (frames.length + 1) evs =
+      frames.map (fun f => (COut.ofDec (decMsg cfg dict f), f.length)) ++
+        [(.err (if L > 1048576 then .tooLarge else .tooShort), 4)] := by
+  obtain ⟨evs', h, hf', hne'⟩ := decodeSeqAll_prefix cfg dict frames evs (b0 :: be24 L ++ tail) 1 hfr
+    (fun f _ => decMsg_ne_panic cfg dict f) hne hflat
+  rw [h]
+  congr 1
+  obtain ⟨_, g1, g2, _⟩ := C07_announced cfg dict evs' b0 L tail hL hne' hf'
+  simp only [decodeSeqAll]
+  rcases hbad with hb | hb
+  · obtain ⟨o, c⟩ := g1 hb
+    simp [o, c, hb]
+  · obtain ⟨o, c⟩ := g2 hb
+    have : ¬ L > 1048576 := by omega
+    simp [o, c, this]
 
 /-! non-vacuity: the boundary values themselves -/
 example : (20 : Nat) ≤ 1048576 ∧ (1048576 : Nat) ≤ 1048576 ∧ ¬ ((1048577 : Nat) ≤ 1048576) := by decide
